@@ -54,6 +54,7 @@ EXC_CODE = {"IndexError": 0, "ValueError": 1, "NameError": 2}
 #   [11,x,y] x = ident(y)   with  def ident(xs): return xs
 #   [12,x,off] x.append(c + off)   [13,x,off] x.remove(c + off)      (c = p.read() at the top of every pass: a run-time scalar)
 #   [14,x,y,sg,k] mon.write(x[len(y) + k]) (sg = 1)  /  mon.write(x[k - len(y)]) (sg = 0)     (len() is folded by the parser)
+#   [15,x,y] for i in range(len(y)): mon.write(x[i])      (harness-level: sent to the model as the reads x[0] .. x[n-1], n = the folded len(y))
 #   programs with "t": True use the vocabulary of coq/Device/DListLen.v (0 1 2(x = x) 3 4 5 6 8 9 10(names only) 12 13 14) and
 #   go to the model in wire mode 2 (parse-time list copies, folded len())
 #   a program may carry "lines": {"head","setup","body"} - the literal script lines (witnesses of findings whose
@@ -112,6 +113,8 @@ def stmt_lines(s, elem=None):
         else:
             idx = f"-len(l{y})" if k == 0 else f"{par(k)} - len(l{y})"
         return [f"mon.write(l{x}[{idx}])"]
+    if t == 15:
+        return [f"for i in range(len(l{s[2]})):", f"    mon.write(l{s[1]}[i])"]
     raise ValueError(s)
 
 
@@ -120,7 +123,7 @@ def stmt_names(s):
     t = s[0]
     if t == 10:
         return list(s[1]) + [r[1] for r in s[2] if r[0] == 0]
-    if t in (2, 8, 9, 11, 14):
+    if t in (2, 8, 9, 11, 14, 15):
         return [s[1], s[2]]
     return [s[1]]
 
@@ -180,7 +183,22 @@ def mock_input(prog) -> str:
 
 def wire_of(prog):
     if prog.get("t"):
-        return [2, prog["setup"], prog["body"], list(prog.get("gates") or [-1] * len(prog["body"])), list(prog["gvals"])]
+        gates = list(prog.get("gates") or [-1] * len(prog["body"]))
+        body = prog["body"]
+        if any(s[0] == 15 for s in body):
+            # `for i in range(len(y)): mon.write(x[i])` = the reads x[0] .. x[n-1] with n the FOLDED len(y)
+            ns = iter(track_py(prog)[2])
+            eb, eg = [], []
+            for s, g in zip(body, gates):
+                if s[0] == 15:
+                    n = max(next(ns), 0)
+                    eb += [[5, s[1], i] for i in range(n)]
+                    eg += [g] * n
+                else:
+                    eb.append(s)
+                    eg.append(g)
+            body, gates = eb, eg
+        return [2, prog["setup"], body, gates, list(prog["gvals"])]
     if gated(prog):
         return [1, prog["setup"], prog["body"], prog["gates"], prog["gvals"]]
     return [0, prog["setup"], prog["body"], prog["N"]]
@@ -195,7 +213,7 @@ def rename(stmts, off):
             s[2] = [[0, r[1] + off] if r[0] == 0 else [1, list(r[1])] for r in s[2]]
         else:
             s[1] += off
-            if s[0] in (2, 8, 9, 11, 14):
+            if s[0] in (2, 8, 9, 11, 14, 15):
                 s[2] += off
         out.append(s)
     return out
@@ -265,24 +283,17 @@ def guard_py(prog) -> bool:
 
 def track_py(prog):
     """mirror of coq/Device/DListLen.v (track1, len_ok) for the oracle's guard, cross-checked against the model on every
-    case: the parser's parse-time copy of every list.  -> (len_ok, [folded len() of every len() read of the body, -1 = run-time])"""
-    t, decl, ok, folded = {}, [], True, []
+    case: the parser's parse-time copy of every list.  -> (len_ok, [folded len() of every len() read of the body, -1 = run-time],
+    [folded len() of every `for i in range(len(y))` of the body])"""
+    t, decl, ok, folded, folded_for = {}, [], True, [], []
 
     def cur(x):
         v = t.get(x)
         return v if isinstance(v, list) else None
 
     def arg_val(s):
-        k = s[0]
-        if k in (3, 4):
-            return s[2]
-        if k in (12, 13):
-            return None
-        cy = cur(s[2])
-        if cy is None:
-            return None
-        i, n = s[3], len(cy)
-        return cy[i] if -n <= i < n else None
+        # _eval_const of the argument: only a literal is a constant (a run-time scalar and ANY subscript y[i] are not)
+        return s[2] if s[0] in (3, 4) else None
 
     def use_ok(s):
         k = s[0]
@@ -290,7 +301,7 @@ def track_py(prog):
             return s[1] == s[2] and s[1] in decl
         if k in (3, 4, 5, 6, 12, 13):
             return s[1] in decl
-        if k in (8, 9, 14):
+        if k in (8, 9, 14, 15):
             return s[1] in decl and s[2] in decl
         if k == 10:
             xs, rs = s[1], s[2]
@@ -311,7 +322,7 @@ def track_py(prog):
             if s[1] not in decl:
                 decl.append(s[1])
             return
-        if not use_ok(s) or (is_g and (in_setup or k not in (5, 6, 14))):
+        if not use_ok(s) or (is_g and (in_setup or k not in (5, 6, 14, 15))):
             ok = False
         x = s[1]
         c = cur(x) if k != 10 else None
@@ -337,6 +348,9 @@ def track_py(prog):
         elif k == 14 and not in_setup:
             cy = cur(s[2])
             folded.append(len(cy) if cy is not None else -1)
+        elif k == 15:
+            cy = cur(s[2])
+            folded_for.append(len(cy) if cy is not None else -1)
 
     for s in prog["setup"]:
         step(s, -1, True)
@@ -347,7 +361,7 @@ def track_py(prog):
     for x, n in at_loop.items():
         if cur(x) is None or len(cur(x)) != n:
             ok = False
-    return ok, folded
+    return ok, folded, folded_for
 
 
 # --------------------------------------------------------------------------
@@ -382,6 +396,9 @@ def sim(prog):
         elif t == 14:
             n = len(env[s[2]])
             env[s[1]][(n + s[4]) if s[3] else (s[4] - n)]
+        elif t == 15:
+            for i in range(len(env[s[2]])):
+                env[s[1]][i]
         elif t == 0:
             env[s[1]] = list(s[2])
         elif t == 1:
@@ -709,6 +726,18 @@ def gen_len_part(rng, N, pattern, flavour="in"):
         if not any(s[0] == 14 for s in body):
             continue
         part = {"setup": setup, "body": body, "N": N, "kind": "len-" + flavour, "gates": gates, "gvals": list(pattern), "t": True}
+        if flavour == "in" and rng.random() < 0.4 and track_py(part)[0] and sim(part) is not None:
+            # the other place a folded len() ends up in: `for i in range(len(y)): mon.write(x[i])`, y with a parse-time copy
+            pos = rng.randint(0, len(body))
+            env = cur_lists(setup + body[:pos], pattern[0])
+            y = rng.choice(names)
+            xs_ok = [x for x in names if len(env.get(x, [])) >= len(env.get(y, []))]
+            body2, gates2 = list(body), list(gates)
+            body2.insert(pos, [15, rng.choice(xs_ok), y])
+            gates2.insert(pos, rng.choice([-1, -1, 1]))
+            part2 = dict(part, body=body2, gates=gates2)
+            if -1 not in track_py(part2)[2] and sim(part2) is not None:
+                part = part2
         if flavour == "out" or sim(part) is not None:
             return part
     return {"setup": [[0, 0, [c for c in sorted(set(pattern))]]], "body": [[13, 0, 0], [12, 0, 0], [14, 0, 0, 1, -1]], "N": N,
